@@ -404,8 +404,19 @@ pub fn run_seq(case: &SeqCase, rep: &mut RunReport) -> Result<(), Violation> {
             rep.fire("power_loss", 1);
             classify_crash_point(&f.next_path, rep);
             let rf = std::mem::take(&mut b.recovery_forks);
+            // power loss right after recovery completed, before anything else
+            // is written: whatever recovery decided must itself be durable
+            let post_recovery = if fi % 3 == 1 && !b.recreated { Some((b.world.store.disk().fork(), b.sim.clock().now_ms())) } else { None };
             let obs = cc.verify(&mut b, k, &ctx, rep)?;
             evals += 1;
+            if let Some((disk, clock_ms)) = post_recovery {
+                let pctx = format!("{ctx}; then crash again right after recovery completed");
+                sigs.push(SimStore::disk_signature(&disk) ^ simcore::rng::mix(k as u64 + 2000));
+                let mut b3 = cc.boot_fork(disk, clock_ms, creation_acked, false, &pctx)?;
+                cc.verify(&mut b3, k, &pctx, rep)?;
+                rep.fire("power_loss_after_recovery", 1);
+                evals += 1;
+            }
             if !b.recreated && fi % 3 == 0 {
                 cc.verify_convergence(b, &obs, &ctx)?;
                 rep.probe("convergence_checked", 1);
